@@ -633,6 +633,18 @@ pub fn run(op: &str, a: &Args) -> Option<Args> {
             Ok(ix) => { let p = 1 + 4 * to_usize(&a[0]); same_or(ix.iter().map(|x| BigInt::from(*x)).collect(), &a[p + 1]) }
             Err(kd) => err(kd),
         },
+        // [ncols] columns... [limit] -> the heap path's indices, each replaced by the first row with identical values in every column
+        "c10.lexsort_topk" => match real_lexsort(a) {
+            Ok(ix) => {
+                let kk = to_usize(&a[0]);
+                let cols: Vec<Vec<OV>> = (0..kk).map(|c| parse_col(&a[1 + 4 * c + 2])).collect();
+                let n = cols[0].len();
+                if ix.iter().any(|i| *i as usize >= n) { return Some(err(E_OOB)) }
+                let same = |i: usize, j: usize| cols.iter().all(|c| c[i] == c[j]);
+                vec![ix.iter().map(|i| BigInt::from((0..n).find(|j| same(*j, *i as usize)).unwrap())).collect()]
+            }
+            Err(kd) => err(kd),
+        },
         "c10.partial_sort_check" => same_or(real_partial_sort(a).iter().map(|x| BigInt::from(*x)).collect(), &a[2]),
         "c10.rank" => {
             let (_, _, arr) = col_at(a, 0);
@@ -828,7 +840,7 @@ pub fn generate(tier: &str, r: &mut Rng, emit: &mut dyn FnMut(Case)) {
                 let n = if small { r.below(10) } else { *r.pick(&[15usize, 16, 17, 31, 32, 33, 47, 48]) };
                 let n = if nd == 4 { n.min(6) } else { n };
                 let vals = gen_col(&t, n, nd, r);
-                let lims = limits_for(n, small || thorough, r);
+                let lims = limits_for(n, small || (thorough && rep % 4 == 1), r);
                 emit_sort_cases(&t, &vals, &lims, r, emit);
             }
         }
@@ -866,6 +878,10 @@ pub fn generate(tier: &str, r: &mut Rng, emit: &mut dyn FnMut(Case)) {
             let out = guarded(|| real_lexsort(&base)).and_then(|x| x.ok()).unwrap_or_default();
             base.push(out.iter().map(|x| BigInt::from(*x)).collect());
             let path = match lim { Some(l) if l <= n / 10 => "heap", _ => "sort" };
+            if path == "heap" && kcols >= 2 && lim != Some(0) {
+                let mut b2 = base.clone(); b2.pop();
+                emit(Case::new("c10.lexsort_topk", b2, &["c10.lexsort_topk"], format!("topk k{kcols} {}", nclass(n))));
+            }
             emit(Case::new("c10.lexsort_check", base, &["c10.lexsort_check.spec"], format!("lex k{kcols} {} {path}", nclass(n))));
         }
     }
@@ -880,6 +896,10 @@ pub fn generate(tier: &str, r: &mut Rng, emit: &mut dyn FnMut(Case)) {
             base.push(gopt(Some(lim)));
             let out = guarded(|| real_lexsort(&base)).and_then(|x| x.ok()).unwrap_or_default();
             base.push(out.iter().map(|x| BigInt::from(*x)).collect());
+            if lim <= n / 10 {
+                let mut b2 = base.clone(); b2.pop();
+                emit(Case::new("c10.lexsort_topk", b2, &["c10.lexsort_topk"], format!("topk k{kcols} big")));
+            }
             emit(Case::new("c10.lexsort_check", base, &["c10.lexsort_check.spec"], format!("lex k{kcols} big {}", if lim <= n / 10 { "heap" } else { "sort" })));
         }
     }
